@@ -10,9 +10,10 @@ open Sigc.Model
 /-- a step that changes only `G` (and possibly `next`, `T`, `C`, `K`, trace …) -/
 theorem Good.of_coreG {off} {s s' : St} (h : InvX off s) (hi : s'.impls = s.impls) (hS : s'.S = s.S)
     (he : s'.err = s.err) (hn : s.next ≤ s'.next) (hle : GLe s.G s'.G)
-    (hh : ∀ p ∈ s'.G, ∀ i, p.2.impl = some i → (aget s.impls i).isSome = true) : Good off s s' := by
+    (hh : ∀ p ∈ s'.G, ∀ i, p.2.impl = some i → (aget s.impls i).isSome = true)
+    (hO : s'.ownedG = s.ownedG := by first | rfl | assumption) : Good off s s' := by
   have g1 := Good.setG h hle hh
-  exact g1.congr hi rfl hS he hn
+  exact g1.congr hi rfl hS he hn hO
 
 theorem GSame.get {G G'} (h : GSame G G') {j : Nat} {d : Handle} (hj : aget G j = some d) :
     ∃ d1, aget G' j = some d1 ∧ d1.obj = d.obj ∧ d1.fl = d.fl ∧ d1.trk = d.trk ∧ d1.everFwd = d.everFwd := by
@@ -30,9 +31,10 @@ macro "nextle" : tactic => `(tactic| first | omega | (simp; done) | (simp; omega
 
 theorem good_invTrk_coreG {off} {s s0 : St} (h : InvX off s) (hi : s0.impls = s.impls) (hS : s0.S = s.S)
     (he : s0.err = s.err) (hn : s.next ≤ s0.next) (hle : GLe s.G s0.G)
-    (hh : ∀ p ∈ s0.G, ∀ i, p.2.impl = some i → (aget s.impls i).isSome = true) (t : Nat) :
+    (hh : ∀ p ∈ s0.G, ∀ i, p.2.impl = some i → (aget s.impls i).isSome = true) (t : Nat)
+    (hO : s0.ownedG = s.ownedG := by first | rfl | assumption) :
     Good off s (invalidateTrackable s0 t) :=
-  (Good.of_coreG h hi hS he hn hle hh).andThen (fun h => good_invalidateTrackable h t)
+  (Good.of_coreG h hi hS he hn hle hh hO).andThen (fun h => good_invalidateTrackable h t)
 
 theorem step_newG {s s' : St} {r : String} (i : Nat) (fl : Option Flavour) (h : Inv s)
     (hs : stepSimple s (.newG i fl) = some (s', r)) : Good0 s s' := by
@@ -53,9 +55,11 @@ theorem step_newG {s s' : St} {r : String} (i : Nat) (fl : Option Flavour) (h : 
 theorem good_newHandle {s : St} (h : Inv s) {j im : Nat} (hj : aget s.G j = none)
     (him : (aget s.impls im).isSome = true) {hd : Handle} {s' : St}
     (hG : s'.G = aset s.G j hd) (hdi : hd.impl = some im)
-    (hi : s'.impls = s.impls) (hS : s'.S = s.S) (he : s'.err = s.err) (hn : s.next ≤ s'.next) : Good0 s s' := by
-  apply Good.of_coreG h hi hS he hn
-  · rw [hG]; exact GLe.aset_new _ hj
+    (hi : s'.impls = s.impls) (hS : s'.S = s.S) (he : s'.err = s.err) (hn : s.next ≤ s'.next)
+    (hf : hd.everFwd = false := by rfl)
+    (hO : s'.ownedG = s.ownedG := by first | rfl | assumption) : Good0 s s' := by
+  apply Good.of_coreG h hi hS he hn (hO := hO)
+  · rw [hG]; exact GLe.aset_new _ hj hf
   · intro p hp k hk
     rw [hG] at hp
     rcases mem_aset hp with hp | hp
@@ -168,40 +172,42 @@ theorem step_masgG {s s' : St} {r : String} (j i : Nat) (h : Inv s)
     · split at hs
       · core_branch h hs
       · split at hs
+        · core_branch h hs
         · split at hs
-          · core_branch h hs
           · split at hs
             · core_branch h hs
-            · rename_i s1 im he
-              split at hs
-              · simp at hs; obtain ⟨h1, h2⟩ := hs; subst h1; subst h2
-                exact (ensureImpl_good h he).1
-              · simp at hs; obtain ⟨h1, h2⟩ := hs; subst h1; subst h2
-                exact good_assignHandle h hd he
-        · split at hs
-          · core_branch h hs
-          · rename_i hji
-            simp at hs; obtain ⟨h1, h2⟩ := hs; subst h1; subst h2
-            have g1 : Good0 s { s with G := aset (aset s.G j { d with impl := hh.impl }) i { hh with impl := none } } := by
-              apply Good.setG h
-              · refine (GLe.aset_same (h' := { d with impl := hh.impl }) hd rfl rfl rfl id).trans
-                  (GLe.aset_same (h := hh) (h' := { hh with impl := none }) ?_ rfl rfl rfl id)
-                rw [aget_aset_other _ _ _ _ (Ne.symm hji)]; exact hhh
-              · intro p hp k hk
-                rcases mem_aset hp with hp | hp
-                · rcases mem_aset hp with hp | hp
-                  · exact h.himpl p hp k hk
-                  · subst hp; exact h.himpl (i, hh) (aget_some_mem hhh) k hk
-                · subst hp; simp at hk
-            have g2 : Good0 s (match d.impl with
-                | some old => gcImpl { s with G := aset (aset s.G j { d with impl := hh.impl }) i { hh with impl := none } } old
-                | none => { s with G := aset (aset s.G j { d with impl := hh.impl }) i { hh with impl := none } }) := by
-              cases d.impl with
-              | none => exact g1
-              | some old => exact g1.andThen (fun h => Good.gcImpl h old)
-            split
-            · exact g2.andThen (fun h => good_invalidateTrackable h _)
-            · exact g2
+            · split at hs
+              · core_branch h hs
+              · rename_i s1 im he
+                split at hs
+                · simp at hs; obtain ⟨h1, h2⟩ := hs; subst h1; subst h2
+                  exact (ensureImpl_good h he).1
+                · simp at hs; obtain ⟨h1, h2⟩ := hs; subst h1; subst h2
+                  exact good_assignHandle h hd he
+          · split at hs
+            · core_branch h hs
+            · rename_i hji
+              simp at hs; obtain ⟨h1, h2⟩ := hs; subst h1; subst h2
+              have g1 : Good0 s { s with G := aset (aset s.G j { d with impl := hh.impl }) i { hh with impl := none } } := by
+                apply Good.setG h
+                · refine (GLe.aset_same (h' := { d with impl := hh.impl }) hd rfl rfl rfl id).trans
+                    (GLe.aset_same (h := hh) (h' := { hh with impl := none }) ?_ rfl rfl rfl id)
+                  rw [aget_aset_other _ _ _ _ (Ne.symm hji)]; exact hhh
+                · intro p hp k hk
+                  rcases mem_aset hp with hp | hp
+                  · rcases mem_aset hp with hp | hp
+                    · exact h.himpl p hp k hk
+                    · subst hp; exact h.himpl (i, hh) (aget_some_mem hhh) k hk
+                  · subst hp; simp at hk
+              have g2 : Good0 s (match d.impl with
+                  | some old => gcImpl { s with G := aset (aset s.G j { d with impl := hh.impl }) i { hh with impl := none } } old
+                  | none => { s with G := aset (aset s.G j { d with impl := hh.impl }) i { hh with impl := none } }) := by
+                cases d.impl with
+                | none => exact g1
+                | some old => exact g1.andThen (fun h => Good.gcImpl h old)
+              split
+              · exact g2.andThen (fun h => good_invalidateTrackable h _)
+              · exact g2
   · core_branch h hs
 
 end Sigc.Emit
